@@ -46,7 +46,10 @@ func Digraph(X []int, R []Relation,
 }
 
 func Union(a []int, b []int) []int {
-	c := b
+	// copy: b may share its backing array with other result sets (members of one
+	// component are assigned the same slice), so appending to it in place would
+	// overwrite their elements
+	c := append(make([]int, 0, len(a)+len(b)), b...)
 	for _, v := range a {
 		found := false
 		for _, u := range b {
